@@ -442,6 +442,10 @@ let () =
           | "repl" :: rest -> handle_repl rest
           | "debug" :: rest -> handle_debug rest
           | "cli" :: rest -> handle_cli rest
+          | "listing" :: fname :: rest ->
+            (* listing <file name> <text>: the text `hyeong check` prints for the file (Model/Listing.v), or panic *)
+            let text = match rest with [] -> [] | t :: _ -> cps_of_field t in
+            (match check_listing (cps_of_field fname) text with Some t -> "ok:" ^ dotted t | None -> "panic")
           | "tables" :: _ -> Printf.sprintf "single=%s|start=%s|hearts=%s|nan=%s" (dotted sINGLE) (dotted sTART) (dotted hEARTS) (dotted nAN_TEXT)
           | "compir" :: rest -> handle_compir rest
           | "comp" :: rest -> handle_comp rest
